@@ -9,6 +9,7 @@ package main
 // decoded batch agrees with the model's `validData` / `validAt`.
 
 import (
+	"math/big"
 	"bytes"
 	"encoding/json"
 	"fmt"
@@ -98,6 +99,7 @@ func canonicalIssues(data []byte) string {
 			if !ok || len(trs) == 0 {
 				return "transfers empty"
 			}
+			total := new(big.Int)
 			for _, x := range trs {
 				tr, ok := x.(map[string]interface{})
 				if !ok {
@@ -106,6 +108,15 @@ func canonicalIssues(data []byte) string {
 				if msg := keysWithin(tr, []string{"address", "amount"}, []string{"address", "amount"}); msg != "" {
 					return "transfer: " + msg
 				}
+				if n, ok := getFold(tr, "amount").(json.Number); ok {
+					if v, ok := new(big.Int).SetString(string(n), 10); ok {
+						total.Add(total, v)
+					}
+				}
+			}
+			// input = sum of the transfers, as integers (not modulo 2^64)
+			if total.Cmp(new(big.Int).SetUint64(u)) != 0 {
+				return "input differs from the sum of the transfers"
 			}
 		}
 	}
@@ -312,6 +323,16 @@ func scenCodec(rep *Report, tier string, seed int64) {
 		case 3:
 			if txs[0].Conversion != 0 {
 				txs[0].Conversion = txs[0].Input.Type // same type
+			}
+		case 4:
+			if len(txs[0].Transfers) > 0 && r.Intn(2) == 0 {
+				// outputs that add up to the input plus 2^64
+				const third = uint64(6148914691236517205)
+				in := txs[0].Input.Amount % 1000000
+				txs[0].Input.Amount = in
+				txs[0].Transfers = []fat2.AddressAmountTuple{{Address: randAddr(), Amount: third}, {Address: randAddr(), Amount: third}, {Address: randAddr(), Amount: third + 1 + in}}
+				structural = 2 // an invalid batch: counts with "input != sum of transfers"
+				rep.Count("codec:outputs-wrap-uint64")
 			}
 		}
 		content, err := json.Marshal(struct {
